@@ -181,7 +181,7 @@ pub fn check(c: &Case, obs: &mut Obs) -> Result<(), Fail> {
         obs.label("fit_history");
         ib
     };
-    if c.cfg.warm.is_some() {
+    if c.cfg.warm.is_some() || c.cfg.pred != 0 {
         catch(|| c.cfg.warm_up_image_builder(&mut ib, &built.qr)).map_err(|p| Fail { sig: panic_sig(&p), msg: format!("warm-up render panicked: {}", p) })?;
         obs.label("renderer_instance_reused");
     }
@@ -359,8 +359,9 @@ pub fn case_strategy(versions: &'static [usize]) -> BoxedStrategy<Case> {
         prop_oneof![Just(None), (0u8..8).prop_map(Some)],
         warm_strategy(),
         any::<bool>(),
+        prop_oneof![5 => Just(0u8), 2 => 1u8..=4],
     )
-        .prop_flat_map(|(v, li, margin, shape, (mc, bg), mask, warm, layer_explicit)| {
+        .prop_flat_map(|(v, li, margin, shape, (mc, bg), mask, warm, layer_explicit, pred)| {
             let cell = Cell { version: v, level: Level::from_index(li), mode: Mode::Byte };
             let s = size(v) + 2 * margin.unwrap_or(4);
             let pre = prop_oneof![3 => Just(Vec::new()), 2 => proptest::collection::vec((fit_strategy(s), any::<bool>()), 1..3)];
@@ -368,7 +369,7 @@ pub fn case_strategy(versions: &'static [usize]) -> BoxedStrategy<Case> {
                 fit_order,
                 pre_fits,
                 build,
-                cfg: SvgCfg { margin, layers: shape.map(|s| vec![(s, if layer_explicit { mc.clone() } else { None })]).unwrap_or_default(), module_color: if layer_explicit && shape.is_some() { None } else { mc.clone() }, background: bg.clone(), warm, ..SvgCfg::default() },
+                cfg: SvgCfg { margin, layers: shape.map(|s| vec![(s, if layer_explicit { mc.clone() } else { None })]).unwrap_or_default(), module_color: if layer_explicit && shape.is_some() { None } else { mc.clone() }, background: bg.clone(), warm, pred, ..SvgCfg::default() },
                 fit,
             })
         })
